@@ -1,3 +1,44 @@
+import os, sys
+
+
+def _e2e_hook(prop, outdir, name, corr_broken, io_fails, log):
+    """Once per check run (and on a replay that names such a scenario): the end-to-end stream.  A real consumer-group
+    leader on the simulated cluster; the subscribed topic gains partitions between two Consume calls; every plan synced
+    afterwards must hold every partition of the topic (harness/cmd/c08e2e, grp.RunGrowth)."""
+    replay = None
+    if name == "replay":
+        rp = [a for a in sys.argv if a.endswith(".ops") or a.endswith(".json")]
+        V = sys.modules["__main__"]
+        cand = os.path.join(V.BUILD, "replay_%s.ops" % prop)
+        replay = cand if os.path.exists(cand) else (rp[0] if rp else None)
+        if not replay or "e2e gs" not in open(replay).read():
+            return
+    elif not name.startswith("gen:") or getattr(_e2e_hook, "done", False):
+        return
+    _e2e_hook.done = True
+    V = sys.modules["__main__"]
+    try:
+        rc, out, binp = V.build_harness("C08E2E", {"overlay": ["sim"]}, log)
+    except Exception as e:
+        rc, out, binp = 1, str(e), None
+    if rc != 0:
+        corr_broken.append({"stream": "e2e-build", "line": 0, "op": "go build -tags verif ./cmd/c08e2e",
+                            "impl": out[-1500:], "model": ""})
+        return
+    od = os.path.join(os.path.dirname(outdir), "e2e")
+    thorough = "thorough" in sys.argv or os.environ.get("VERIF_TIER") == "thorough"
+    seed = int(name.split("=")[1]) if name.startswith("gen:seed=") else 1
+    rc, out, dt = V.run_harness(binp, od, seed, "thorough" if thorough else "quick", replay=replay, timeout=900)
+    log("e2e run rc=%d %.1fs" % (rc, dt))
+    if rc != 0:
+        corr_broken.append({"stream": "e2e", "line": 0, "op": "harness run (cmd/c08e2e)", "impl": "exit %d: %s" % (rc, out[-1500:]), "model": ""})
+        return
+    st = V.read_stats(od)
+    st["stream"] = "e2e"
+    CFG.setdefault("_extra_stats", []).append(st)
+    io_fails += [dict(x, stream="e2e") for x in V.read_io(od)]
+
+
 CFG = dict(
     # Lean modules whose theorems are this property's proof obligations (built + audited on every run).
     lean_modules=["SaramaVerif.Model.BalancePlan", "SaramaVerif.Model.BalanceRange", "SaramaVerif.Model.BalanceRoundRobin",
@@ -9,6 +50,7 @@ CFG = dict(
                   "SaramaVerif.Props.C08", "SaramaVerif.Bridge.C08"],
     lean_support=["SaramaVerif.GoSem", "SaramaVerif.Gen.C08", "SaramaVerif.Model.BalanceLine"],
     model="C08",
+    custom=_e2e_hook,
     required_theorems=["Props.C08.range_partition", "Props.C08.range_valid",
                        "Props.C08.rr_find_terminates", "Props.C08.rr_diverges_without_subscriber",
                        "Props.C08.rr_valid", "Props.C08.rr_plan_valid", "Props.C08.balance_topics_have_subscribers",
